@@ -411,6 +411,8 @@ type ownCtx struct {
 
 var errOwn = errors.New("server is shutting down")
 
+var errPriorCall = errors.New("earlier call ended by the simulator")
+
 func (c *ownCtx) Done() <-chan struct{} { return c.done }
 func (c *ownCtx) Err() error {
 	select {
@@ -604,6 +606,15 @@ func runScenario(t *tape.Tape, cfg sim.Config, listen bool) (res sim.Result) {
 	var hostFailureAsync atomic.Value
 	blockerNotified, callReturned := make(chan struct{}), make(chan struct{})
 	var blockerTimedOut atomic.Bool
+	snap := !listen && t.Chance(1, 4)
+	priorCall := snap && shape != shHostEntered && t.Chance(1, 2)
+	if snap {
+		res.Stat("probe.snapshotter_enabled_on_the_call_context", 1)
+	}
+	if priorCall {
+		res.Stat("probe.function_object_used_before_with_another_context", 1)
+	}
+	var priorPhase atomic.Bool
 	abortedInst := cause == causeRuntimeClose && t.Chance(1, 2)
 	if abortedInst {
 		res.Stat("probe.unrelated_instantiation_stopped_by_its_deadline_before_the_runtime_close", 1)
@@ -693,6 +704,9 @@ func runScenario(t *tape.Tape, cfg sim.Config, listen bool) (res sim.Result) {
 			return
 		}
 		if tag == 0 {
+			if priorPhase.Load() {
+				panic(errPriorCall) // the earlier call on the same function object ends here
+			}
 			select {
 			case entered <- struct{}{}:
 			default:
@@ -793,6 +807,21 @@ func runScenario(t *tape.Tape, cfg sim.Config, listen bool) (res sim.Result) {
 		}
 	}
 	defer cancel()
+	// experimental snapshot support switched on for the call (no snapshot is taken), and sometimes the SAME
+	// api.Function object has been used before, for a call with another context that ended by itself: the
+	// judged call must obey ITS context
+	fn := mod.ExportedFunction("run")
+	if snap {
+		callCtx = experimental.WithSnapshotter(callCtx)
+		if priorCall {
+			priorPhase.Store(true)
+			_, perr := fn.Call(experimental.WithSnapshotter(bg))
+			priorPhase.Store(false)
+			if !errors.Is(perr, errPriorCall) {
+				panic(fmt.Sprintf("harness: the earlier call on the function object returned %v", perr))
+			}
+		}
+	}
 	if !yield && !already {
 		go func() {
 			<-entered
@@ -802,7 +831,7 @@ func runScenario(t *tape.Tape, cfg sim.Config, listen bool) (res sim.Result) {
 			fire()
 		}()
 	}
-	_, callErr := mod.ExportedFunction("run").Call(callCtx)
+	_, callErr := fn.Call(callCtx)
 	if guestFile && guestFileOpened.Load() > 0 {
 		res.Stat("probe.call_stopped_while_the_guest_held_a_file_that_fails_to_close", 1)
 	}
